@@ -1,11 +1,11 @@
-use speedy::{Readable, Writable};
+use speedy::{Context, Endianness, Readable, Writable, Writer};
 
 use crate::structure::locator::Locator;
 
 /// This message is sent from an RTPS Reader to an RTPS Writer.
 /// It contains explicit information on where to send a reply
 /// to the Submessages that follow it within the same message.
-#[derive(Debug, PartialEq, Eq, Clone, Readable, Writable)]
+#[derive(Debug, PartialEq, Eq, Clone)]
 pub struct InfoReply {
   /// Indicates an alternative set of unicast addresses that
   /// the Writer should use to reach the Readers when
@@ -18,4 +18,60 @@ pub struct InfoReply {
   ///
   /// Only present when the MulticastFlag is set.
   pub multicast_locator_list: Option<Vec<Locator>>,
+}
+
+// Wire format by RTPS 2.5 Section 9.4.5.9: the unicast LocatorList, followed by
+// the multicast LocatorList if and only if the MulticastFlag of the submessage
+// header is set. There is no presence marker in the body, so (de)serialization
+// cannot be derived from the struct.
+impl InfoReply {
+  const LOCATOR_SIZE: usize = 24;
+
+  pub fn read_from_buffer_with_flag(
+    endianness: Endianness,
+    buffer: &[u8],
+    multicast_flag: bool,
+  ) -> Result<Self, speedy::Error> {
+    let (unicast_locator_list, rest) = Self::read_locator_list(endianness, buffer)?;
+    let multicast_locator_list = if multicast_flag {
+      Some(Self::read_locator_list(endianness, rest)?.0)
+    } else {
+      None
+    };
+    Ok(Self {
+      unicast_locator_list,
+      multicast_locator_list,
+    })
+  }
+
+  // Returns the list and the bytes after it.
+  fn read_locator_list(
+    endianness: Endianness,
+    buffer: &[u8],
+  ) -> Result<(Vec<Locator>, &[u8]), speedy::Error> {
+    // The list starts with its length. Check the claimed length against the
+    // bytes we actually have, before the deserializer reserves memory for it.
+    let claimed_locators = u32::read_from_buffer_with_ctx(endianness, buffer)? as usize;
+    let list_end = claimed_locators
+      .saturating_mul(Self::LOCATOR_SIZE)
+      .saturating_add(4);
+    if list_end > buffer.len() {
+      return Err(speedy::Error::custom(format!(
+        "INFO_REPLY claims {claimed_locators} locators, but only {} bytes are left in the submessage.",
+        buffer.len()
+      )));
+    }
+    let list = Vec::<Locator>::read_from_buffer_with_ctx(endianness, &buffer[..list_end])?;
+    Ok((list, &buffer[list_end..]))
+  }
+}
+
+impl<C: Context> Writable<C> for InfoReply {
+  fn write_to<T: ?Sized + Writer<C>>(&self, writer: &mut T) -> Result<(), C::Error> {
+    writer.write_value(&self.unicast_locator_list)?;
+    if let Some(multicast_locator_list) = &self.multicast_locator_list {
+      writer.write_value(multicast_locator_list)?;
+    }
+    Ok(())
+  }
 }
